@@ -33,6 +33,7 @@ var c16Nasty = []string{
 // c16G is the per-case generator state.
 type c16G struct {
 	r     *Rand
+	cycle bool   // the jobs form a needs cycle
 	focus string // site class that gets a nasty string with high probability
 	den   int    // 1/den: probability of a nasty string at a non-focused site
 	used  map[string]int
@@ -202,6 +203,19 @@ func (g *c16G) u(class, def string) string {
 		return g.nastyExpr(n)
 	}
 	return n
+}
+
+// uf is u with an additional chance num/den of a nasty string regardless of the focus (sites that
+// are reached by few workflows).
+func (g *c16G) uf(class, def string, num, den int) string {
+	if g.r.Chance(num, den) {
+		save := g.focus
+		g.focus = class
+		s := g.u(class, def)
+		g.focus = save
+		return s
+	}
+	return g.u(class, def)
 }
 
 func c16ExprQuote(s string) string { return "'" + strings.ReplaceAll(s, "'", "''") + "'" }
@@ -763,12 +777,49 @@ func (g *c16G) on() *c16N {
 	return m
 }
 
+// matrixComposite builds a value of a matrix row: a scalar, or a mapping / sequence whose keys and
+// elements are user-string sites themselves (the matrix diagnostics print composite values).
+func (g *c16G) matrixComposite(depth int) *c16N {
+	r := g.r
+	k := r.Intn(5)
+	if depth >= 3 {
+		k = 0
+	}
+	switch k {
+	case 1, 2:
+		m := c16M()
+		for i, n := 0, r.Range(1, 2); i < n; i++ {
+			m.put(g.u("matrixmapkey", r.Pick([]string{"opt", "level", "a", "Opt"})), g.matrixComposite(depth+1))
+		}
+		if depth > 0 {
+			g.maybeFlow(m)
+		}
+		return m
+	case 3:
+		q := c16Q()
+		for i, n := 0, r.Range(1, 3); i < n; i++ {
+			q.e = append(q.e, g.matrixComposite(depth+1))
+		}
+		if depth > 0 {
+			g.maybeFlow(q)
+		}
+		return q
+	}
+	return c16S(g.u("matrixval", r.Pick([]string{"1", "ubuntu-latest", "x", "14.x", "true"})))
+}
+
 func (g *c16G) matrix() *c16N {
 	r := g.r
 	if r.Chance(1, 10) {
 		return c16S(g.u("expr", "${{ fromJSON(inputs.m) }}"))
 	}
 	m := c16M()
+	type rowInfo struct {
+		key   string
+		elems []*c16N
+	}
+	var rows []rowInfo
+	composite := r.Chance(1, 2) || g.focus == "matrixmapkey" || g.focus == "matrixval"
 	for i, n := 0, r.Range(1, 3); i < n; i++ {
 		key := g.u("matrixkey", r.Pick([]string{"os", "node", "Ver", "include2"}))
 		if r.Chance(1, 10) {
@@ -777,25 +828,58 @@ func (g *c16G) matrix() *c16N {
 		}
 		q := c16Q()
 		for j, k := 0, r.Range(1, 4); j < k; j++ {
-			switch r.Intn(8) {
-			case 0:
-				q.e = append(q.e, c16M(g.u("matrixkey", "a"), g.u("matrixval", "1")))
-			case 1:
+			switch {
+			case composite && r.Chance(2, 3):
+				q.e = append(q.e, g.matrixComposite(0))
+			case r.Chance(1, 8):
+				q.e = append(q.e, c16M(g.u("matrixmapkey", "a"), g.u("matrixval", "1")))
+			case r.Chance(1, 8):
 				q.e = append(q.e, c16Q(g.u("matrixval", "1"), "2"))
 			default:
 				q.e = append(q.e, c16S(g.u("matrixval", r.Pick([]string{"1", "ubuntu-latest", "1", "14.x"}))))
 			}
 		}
-		m.put(key, g.maybeFlow(q))
+		// plant duplicates: the same value again (rendered independently, possibly in another style)
+		if r.Chance(1, 2) {
+			for d := r.Range(1, 2); d > 0; d-- {
+				e := q.e[r.Intn(len(q.e))]
+				at := r.Intn(len(q.e) + 1)
+				q.e = append(q.e[:at], append([]*c16N{e}, q.e[at:]...)...)
+			}
+		}
+		rows = append(rows, rowInfo{key, q.e})
+		if composite {
+			m.put(key, q) // block style so that nested block mappings stay valid
+		} else {
+			m.put(key, g.maybeFlow(q))
+		}
 	}
 	for _, sec := range []string{"include", "exclude"} {
-		if r.Chance(1, 3) {
-			q := c16Q()
-			for j, k := 0, r.Range(1, 2); j < k; j++ {
-				q.e = append(q.e, c16M(g.u("matrixkey", r.Pick([]string{"os", "node", "zz"})), g.u("matrixval", r.Pick([]string{"1", "ubuntu-latest", "9"}))))
-			}
-			m.put(sec, q)
+		if !r.Chance(1, 2) {
+			continue
 		}
+		q := c16Q()
+		for j, k := 0, r.Range(1, 3); j < k; j++ {
+			ent := c16M()
+			for a, na := 0, r.Range(1, 2); a < na; a++ {
+				switch {
+				case len(rows) > 0 && r.Chance(3, 4):
+					row := rows[r.Intn(len(rows))]
+					switch r.Intn(4) {
+					case 0: // a value of the row (matches)
+						ent.put(row.key, row.elems[r.Intn(len(row.elems))])
+					case 1: // a scalar that matches nothing
+						ent.put(row.key, g.u("matrixval", "nomatch"))
+					default: // a composite value that matches nothing
+						ent.put(row.key, g.matrixComposite(r.Intn(2)))
+					}
+				default:
+					ent.put(g.u("matrixkey", r.Pick([]string{"os", "node", "zz"})), g.matrixComposite(1))
+				}
+			}
+			q.e = append(q.e, ent)
+		}
+		m.put(sec, q)
 	}
 	return m
 }
@@ -921,7 +1005,11 @@ func (g *c16G) job(ids []string, idx int) *c16N {
 	if r.Chance(1, 3) {
 		m.put("name", g.u("expr", "Job ${{ matrix.os }}"))
 	}
-	if idx > 0 && r.Chance(1, 2) {
+	if g.cycle {
+		// a dependency cycle over all jobs (a self loop when there is one job): the cycle message
+		// echoes the job ids
+		m.put("needs", ids[(idx+1)%len(ids)])
+	} else if idx > 0 && r.Chance(1, 2) {
 		if r.Bool() {
 			m.put("needs", g.u("jobref", ids[r.Intn(idx)]))
 		} else {
@@ -955,7 +1043,7 @@ func (g *c16G) job(ids []string, idx int) *c16N {
 		return m
 	}
 	m.put("runs-on", g.runsOn())
-	if r.Chance(1, 3) {
+	if r.Chance(1, 3) || strings.HasPrefix(g.focus, "matrix") {
 		st := c16M()
 		st.put("matrix", g.matrix())
 		if r.Chance(1, 3) {
@@ -1018,7 +1106,7 @@ func (g *c16G) job(ids []string, idx int) *c16N {
 	return m
 }
 
-var c16Classes = []string{"cron", "docker", "action", "reusable", "glob", "shell", "number", "image", "expr", "event", "activity", "scope", "permvalue", "envname", "inputname", "inputtype", "default", "option", "bool", "key", "text", "matrixkey", "matrixval", "id", "withname", "label", "jobref", "jobid", "inherit", "cfglabel", "cfgvar"}
+var c16Classes = []string{"cron", "docker", "action", "reusable", "glob", "shell", "number", "image", "expr", "event", "activity", "scope", "permvalue", "envname", "inputname", "inputtype", "default", "option", "bool", "key", "text", "matrixkey", "matrixval", "matrixmapkey", "matrixmapkey", "matrixval", "id", "withname", "label", "jobref", "jobid", "inherit", "cfglabel", "cfgvar"}
 
 // c16Workflow generates one workflow. It returns the source text and the config file text ("" if the
 // case runs without a config file).
@@ -1027,6 +1115,7 @@ func c16Workflow(r *Rand) (src string, cfg string, g *c16G) {
 	if r.Chance(3, 4) {
 		g.focus = c16Classes[r.Intn(len(c16Classes))]
 	}
+	g.cycle = r.Chance(1, 10) || (g.focus == "jobid" && r.Bool())
 	root := c16M()
 	if r.Chance(1, 2) {
 		root.put("name", g.u("text", "CI"))
